@@ -635,6 +635,30 @@ pub fn exec_retrying<R>(exec: &mut impl FnMut(&[usize]) -> Exec<R>, prefix: &[us
     x
 }
 
+/// The first-level children of the default execution (every alternative at every decision that the
+/// preemption bound allows). Their subtrees are disjoint and, together with the default execution
+/// itself, make up the whole bounded search space — used to split one large search over processes.
+pub fn first_level_roots<R>(bound: usize, exec: &mut impl FnMut(&[usize]) -> Exec<R>) -> (Exec<R>, Vec<Vec<usize>>) {
+    let x = exec_retrying(exec, &[]);
+    let choices = x.choices();
+    let mut pre = 0usize;
+    let mut children = vec![];
+    for (i, s) in x.steps.iter().enumerate() {
+        let cost = pre + usize::from(s.cur_enabled);
+        if cost <= bound {
+            for alt in 1..s.n_enabled {
+                let mut p = choices[..i].to_vec();
+                p.push(alt);
+                children.push(p);
+            }
+        }
+        if s.cur_enabled && s.pos != 0 {
+            pre += 1;
+        }
+    }
+    (x, children)
+}
+
 /// Stateless depth-first search over all schedules with at most `bound` preemptions (iterative
 /// context bounding). `exec(prefix)` runs one execution; `check` sees every execution and returns
 /// false to stop the search.
